@@ -1,6 +1,7 @@
 package deneb
 
 import (
+	"fmt"
 	"context"
 	"errors"
 	"time"
@@ -47,7 +48,7 @@ func (e *vEngine) answer(kind int) (bool, error) {
 	case 1:
 		return false, nil
 	}
-	return false, errors.New("engine error")
+	return false, vEngErr()
 }
 func (e *vEngine) DenebIsValidBlockHash(ctx context.Context, p *ExecutionPayload, parent common.Root) (bool, error) {
 	e.calls = append(e.calls, vEngCall{kind: 0, parent: parent, block: p.BlockHash})
@@ -97,6 +98,10 @@ func VerifHarness_C18_deneb_payload() {
 	eng := &vEngine{verdicts: [3]int{zzverif.Choose(3), zzverif.Choose(3), zzverif.Choose(3)}}
 	polls := 0
 	ctx := vCtx{polls: &polls, failAt: zzverif.Choose(3) - 1}
+	vEngErrKind = 0
+	if (eng.verdicts[0] == 2 || eng.verdicts[1] == 2 || eng.verdicts[2] == 2) && ctx.failAt < 0 {
+		vEngErrKind = zzverif.Choose(3) // kind of the engine's error, with a live caller context
+	}
 	zzverif.Reach("deneb-payload")
 	err := ProcessExecutionPayload(ctx, spec, st, body, eng)
 	// reference
@@ -143,4 +148,20 @@ func VerifHarness_C18_deneb_payload() {
 			}
 		}
 	}
+}
+
+
+// vEngErrKind: the kind of error a failing engine query reports (chosen per path by the harness): a plain error, or an
+// error wrapping context.DeadlineExceeded / context.Canceled as an engine client whose own request context expired
+// would return it - while the caller's context is still live. Either way the payload was not approved.
+var vEngErrKind int
+
+func vEngErr() error {
+	switch vEngErrKind {
+	case 1:
+		return fmt.Errorf("engine request failed: %w", context.DeadlineExceeded)
+	case 2:
+		return context.Canceled
+	}
+	return errors.New("engine error")
 }
